@@ -1,12 +1,14 @@
 --------------------------- MODULE Trace_WriteEdit ---------------------------
 (* judges what the real writer produced after loading a file and after every edit against WriteEdit.tla *)
-EXTENDS WriteEdit_Docs, IOUtils
+EXTENDS WriteEdit_Docs, IOUtils, TLCExt
 TraceLog == ndJsonDeserialize(IOEnv.VERIF_TRACE)
 Strict == IOEnv.VERIF_STRICT = "1"
-VARIABLES l, cur, okedit
-tvars == <<vars, l, cur, okedit>>
+VARIABLES l, cur, okedit,
+          bad       \* collecting mode (VERIF_COLLECT=1): every event at which a monitor fails, as <<line, names of the failing monitors>>
+tvars == <<vars, l, cur, okedit, bad>>
+Collect == IOEnv.VERIF_COLLECT = "1"
 E == TraceLog[l]
-TraceInit == l = 1 /\ doc = <<>> /\ hist = <<>> /\ cur = [ev |-> "Reset"] /\ okedit = TRUE
+TraceInit == l = 1 /\ doc = <<>> /\ hist = <<>> /\ cur = [ev |-> "Reset"] /\ okedit = TRUE /\ bad = <<>>
 RECURSIVE SameDoc(_, _)
 SameItem(x, y) == /\ x.k = y.k
                   /\ CASE x.k = "note" -> x.id = y.id
@@ -19,12 +21,18 @@ Reset == IsEvent("Reset") /\ doc' = <<>> /\ okedit' = TRUE
 Load == IsEvent("Load") /\ doc' = E.doc /\ okedit' = TRUE /\ (Strict => SameDoc(E.doc, E.o.doc))
 (* after an edit, re-reading the output shows that change and no other *)
 Edit == IsEvent("Edit") /\ doc' = E.doc /\ okedit' = (E.crashed \/ E.parse_error # "" \/ SameDoc(E.doc, EffectOf(doc, E.o)))
-TraceNext == Reset \/ Load \/ Edit
-TraceSpec == TraceInit /\ [][TraceNext]_tvars
 Written == cur.ev \in {"Load", "Edit"}
 MonNoCrash == Written => ~cur.crashed /\ cur.parse_error = ""
 MonEdit == okedit
 MonLoad == (Written /\ ~cur.crashed /\ cur.parse_error = "") => LoadContract(cur.m)
 MonFormat == (Written /\ ~cur.crashed /\ cur.parse_error = "") => FormatContract(cur.m)
+(* the monitors as invariants stop at the first failing event; in collecting mode they are evaluated on every new state
+   and the failing events are gathered, so that one run judges every behaviour *)
+Failing == (IF MonNoCrash THEN {} ELSE {"MonNoCrash"}) \cup (IF MonEdit THEN {} ELSE {"MonEdit"})
+           \cup (IF MonLoad THEN {} ELSE {"MonLoad"}) \cup (IF MonFormat THEN {} ELSE {"MonFormat"})
+Gather == bad' = IF Collect /\ Failing' # {} THEN Append(bad, <<l, Failing'>>) ELSE bad
+TraceNext == (Reset \/ Load \/ Edit) /\ Gather
+TraceSpec == TraceInit /\ [][TraceNext]_tvars
+Collected == (l > Len(TraceLog)) => PrintT(<<"COLLECTED", ToJson(bad)>>)
 TraceAccepted == TLCGet("stats").diameter - 1 = Len(TraceLog)
 =============================================================================
